@@ -47,9 +47,21 @@ def uparse(frame, msgmode=0, validate=1, parsebitfield=1):
             msgmode = ModeEnum(msgmode)
         elif frame[-1] % 8 == 5 and msgmode in (0, 1):
             msgmode = bool(msgmode)
+    fn = pyubx2.UBXReader.parse
+    if len(frame) >= 2 and isinstance(validate, int):
+        if frame[-2] % 8 == 1:
+            # validate is a word of flags (the reader hands the same word to the NMEA
+            # parser, which knows a second flag): other bits do not change bit 0
+            validate = validate | 2
+        elif frame[-2] % 8 == 2:
+            # the static method looked up on a reader *object* built with other settings
+            import io
+
+            fn = pyubx2.UBXReader(io.BytesIO(b""), validate=0 if validate & 1 else 1, msgmode=(msgmode + 1) % 3 if
+                                  isinstance(msgmode, int) and msgmode < 3 else 0, parsebitfield=not parsebitfield).parse
     if len(frame) >= 2 and (frame[-1] + frame[-2]) % 4 == 0:
-        return pyubx2.UBXReader.parse(frame, msgmode, validate, parsebitfield)
-    return pyubx2.UBXReader.parse(frame, msgmode=msgmode, validate=validate, parsebitfield=parsebitfield)
+        return fn(frame, msgmode, validate, parsebitfield)
+    return fn(frame, msgmode=msgmode, validate=validate, parsebitfield=parsebitfield)
 
 
 def public_attrs(msg):
